@@ -16,7 +16,7 @@ CLAIMED = {
                 "of the ciphertext's own level, in this order), returns bits(q_level) - bits(norm) - 1 clamped at 0 where the "
                 "modulus bit count is that of the level's TOTAL modulus (the sum of per-prime bit counts is a recognised wrong "
                 "form), poly_infty_norm centres against half_round_up(modulus) and keeps the maximum, the computation runs on "
-                "coefficient-form data, and error / ternary samples carry one value in every RNS component.",
+                "coefficient-form data, and error / ternary samples carry one value in every RNS component. R-BUDGET(reach): for every scheme the budget supports, each ciphertext representation accepted by decrypt is accepted by the budget query (per-projection, per-flag normal-return summaries). R-POWERS: the loop extending the cache of secret-key powers computes each new power from the region immediately before it and the region at offset 0, as a polynomial identity in the old size.",
         "note": _TB + "Not decided: that the reported number equals the exact budget, the fresh-encryption bound, the growth "
                 "under negation / addition, exact decryption below the threshold — value-level facts. Formula forms outside "
                 "the small recognised table are reported as unresolved, not as violations.",
@@ -29,7 +29,7 @@ CLAIMED = {
                 "residue i at index i*N; on the BFV, CKKS and BGV projections of extraction, field trace, division by N and "
                 "packing no step mixes coefficient-form and NTT-form data, the negacyclic shift and butterfly merge run in "
                 "coefficient form, the automorphism runs in the representation its scheme requires and results leave with "
-                "data matching their flag; the trace and packing loops advance.",
+                "data matching their flag; the trace and packing loops advance. The negacyclic shift is applied to coefficient-form data under every flag assumption (R-REPSTATE domain). R-LWEPAIR(meta): every metadata field assemble_lwe copies from an LWE ciphertext (parms_id, scale, correction factor) is compared across all inputs of pack_lwe_ciphertexts in a refusing check.",
         "note": _TB + "Not decided: where coefficients land as a function of the runtime index, count and trace parameter "
                 "(the stride, the factor N/2^l, the zeros), coverage of the automorphism key set, the CKKS error bound. The "
                 "butterfly merge of pack_lwe_ciphertexts works on raw-pointer views of one vector's elements, which the "
@@ -43,7 +43,7 @@ CLAIMED = {
                 "size, no residue of the dropped prime enters the arithmetic modulo another prime unreduced (it is reduced "
                 "under that prime, copied under a comparison of the two moduli, or operated on under its own prime), and "
                 "every in-place operation of src/util/rns.rs on residue slot s uses the precomputed operand, modulus and "
-                "NTT table of prime s (slot and index expressions compared as symbolic polynomials).",
+                "NTT table of prime s (slot and index expressions compared as symbolic polynomials). R-SHAPE(baselen): the number of primes handed to the BEHZ base B equals the counter of the sizing rule (symbolic length of the prime list).",
         "note": _TB + "Not decided: every integer specification itself (CRT bijectivity, conversion error bounds, "
                 "Montgomery / floor / Shenoy-Kumaresan exactness, round-to-nearest, value modulo t, scale-and-round) — "
                 "value-level facts outside static shape analysis; the BEHZ converters iterate with zip adaptors and "
@@ -56,7 +56,7 @@ CLAIMED = {
                 "util::uintsmallmod and util::number_theory: every non-constant output depends (data or control) on "
                 "the contents of every value operand at every normal return, in/out operands are not killed before "
                 "they are read, and no out-parameter is read before it is written. An output that ignores an operand "
-                "on a path whose condition does not fix that operand cannot equal the named operation. Also: no in-place word loop reads a position an earlier iteration of the same loop has overwritten (store/load index polynomials and direction of travel), and no left shift is performed in a narrower integer type than its cast target.",
+                "on a path whose condition does not fix that operand cannot equal the named operation. Also: no in-place word loop reads a position an earlier iteration of the same loop has overwritten (store/load index polynomials and direction of travel), and no left shift is performed in a narrower integer type than its cast target. Every operand of add_u64_mod / sub_u64_mod / negate_u64_mod is a residue or a residue-buffer element (R-RESIDUE: provenance followed through lets, `if` values and, for parameters, every call site in the crate); a quotient, plain arithmetic or a float cast as operand is refused.",
         "note": _TB + "Not decided: exactness itself (Barrett estimates, carries, quotient digits) — a solver or "
                 "enumeration question, which is a different technique family. Callees are modelled by weak updates "
                 "with a short table of strong kills; loops are assumed to run at least once for the written-before-read clause.",
@@ -81,7 +81,7 @@ CLAIMED = {
                 "the same index-map field with the loop variable as index; the tail beyond the input is zero-filled "
                 "through the same map; encode ends with the inverse and decode begins with the forward non-lazy "
                 "negacyclic transform of the same tables; coefficient encoding reduces modulo t; and every index "
-                "guarded by a comparison with the operand length (Galois permutation) is implied in-bounds. Also: GaloisTool::apply stores to its out-buffer for every index of the ring degree.",
+                "guarded by a comparison with the operand length (Galois permutation) is implied in-bounds. Also: GaloisTool::apply stores to its out-buffer for every index of the ring degree. The rotation-step decomposition (naf) covers negative steps: no `v > 0` halving loop over a signed parameter that was never made non-negative (R-CONTRA(signloop)).",
         "note": _TB + "Not decided: that batching is a ring isomorphism, the slot order, the rotation correspondence "
                 "(facts about roots of unity and the index map's contents).",
         "technique": "structural pair agreement on typed HIR (scatter/gather, transform pairs) + guard/use contradiction + iteration-space coverage of the out-buffer",
@@ -92,7 +92,7 @@ CLAIMED = {
                 "tier guard depends (flow-sensitively) only on inputs the guard depends on; no wrapping arithmetic on an "
                 "unbounded signed/floating input feeds a modular reduction; every entry point refuses, on every "
                 "normally-returning path, through a sign test of the scale and through branches computed from the "
-                "scale and from the value(s) against the modulus size. Also: the admissibility bit count carries the sign-bit allowance its formula needs and every float-to-integer cast fits its type under the branch guard.",
+                "scale and from the value(s) against the modulus size. Also: the admissibility bit count carries the sign-bit allowance its formula needs and every float-to-integer cast fits its type under the branch guard. R-OUTCOVER: a caller-supplied plaintext that is resized (old contents kept) is completely defined by the call: indexed stores cover it densely (polynomial identities between strides, loop bounds and the resize length) or follow a zero fill; a loop bounded by the length of an input slice without a fill is refused.",
         "note": _TB + "Not decided: rounding, double-precision error of the embedding transform, FFT correctness, "
                 "slot order, consistency of RNS components as values.",
         "technique": "flow-sensitive dependency comparison of guards and casts + guard dominance with scalar operands + bit-count formula / cast-width table",
@@ -144,7 +144,7 @@ CLAIMED = {
                 "of public-key encryption uses the routine of the ciphertext's representation, results leave with data "
                 "matching their flag; the stored seed is written and expanded at the same address and length; the metadata "
                 "recorded on a fresh encryption is the one the scheme implies (CKKS: the plaintext's own level and scale, "
-                "BFV/BGV: the first level; representation flag; correction factor 1) in every encrypt form.",
+                "BFV/BGV: the first level; representation flag; correction factor 1) in every encrypt form. In scaling_variant / encryptor / rlwe every operand of add_u64_mod / sub_u64_mod / negate_u64_mod is a residue or a residue-buffer element (R-RESIDUE: provenance followed through lets, `if` values and, for parameters, every call site in the crate); a quotient, plain arithmetic or a float cast as operand is refused.",
         "note": _TB + "Not decided: that decryption returns the plaintext, any noise bound, CKKS encoding error.",
         "technique": "constant propagation of dispatch flags + scheme projection + representation typestate + symbolic metadata + address agreement",
         "design_ref": "DESIGN.md §4 C01",
@@ -182,7 +182,7 @@ CLAIMED = {
                 "apply_galois_inplace show that, on both representation arms, the key switch receives G(c1) while "
                 "poly(0) holds G(c0) and poly(1) is zero; rotate_internal applies the element whose key it tested and "
                 "composes NAF components on the same ciphertext and key set; conjugation uses step 0; the Galois "
-                "permutation's length-guarded index is implied in-bounds by its guard. Also: every stage touching an RNS slot of the key-switch scratch product uses the same prime index; no sign test is applied to a value that can only be an absolute value (rotation-step decomposition).",
+                "permutation's length-guarded index is implied in-bounds by its guard. Also: every stage touching an RNS slot of the key-switch scratch product uses the same prime index; no sign test is applied to a value that can only be an absolute value (rotation-step decomposition). A halving digit loop guarded by `v > 0` over a signed parameter is entered only after the value was made non-negative or negative values were refused (R-CONTRA(signloop)).",
         "note": _TB + "Not decided: that X -> X^g permutes slots as documented, generator/NAF arithmetic, key-switch "
                 "noise, plaintext preservation under the new key.",
         "technique": "symbolic reaching-definitions over structured HIR + structural pair agreement + guard/use contradiction + slot/prime index unification + reaching-definition sign contradiction",
